@@ -322,6 +322,9 @@ func renderVTT(r *rng, d vttDoc, canon bool, o vttOpts) []byte {
 		}
 		if c.id != 0 {
 			b.WriteString(fmt.Sprint(c.id) + eol)
+		} else if !canon && r.chance(1, 8) {
+			// an identifier that is not a number (the cue then has none), digits beyond what an integer holds included
+			b.WriteString([]string{"intro", "cue1", "1a", "#2", "99999999999999999999x", "18446744073709551615x", "18446744073709551616 y"}[r.intn(7)] + eol)
 		}
 		arrow := " --> "
 		if !canon {
@@ -387,8 +390,11 @@ func renderVTT(r *rng, d vttDoc, canon bool, o vttOpts) []byte {
 	}
 	s := b.String()
 	if !canon && r.chance(1, 4) {
-		// no line terminator at the very end
+		// no line terminator at the very end, or that of the last line and nothing after it
 		s = strings.TrimRight(s, "\r\n")
+		if r.bool() {
+			s += eol
+		}
 	}
 	return []byte(s)
 }
